@@ -257,6 +257,7 @@ func (w *World) observe() {
 	}
 	w.checkApplied()
 	w.checkClients()
+	w.checkCompaction()
 }
 
 func (w *World) leaderSeen(term, id uint64, how string) {
@@ -601,6 +602,13 @@ func runWalk(t *testing.T, rep *Report, prof profile, seed uint64, walk int, act
 			total := 0
 			pick := func(p int) bool { total += p; return r < total }
 			pending := s.PendingCalls()
+			if os.Getenv("VERIF_DUMP_TRACE") != "" {
+				var ks []string
+				for _, c := range pending {
+					ks = append(ks, c.String())
+				}
+				w.note("pending(%d): %s", len(pending), strings.Join(ks, " | "))
+			}
 			switch {
 			case pick(prof.pDeliver):
 				if len(pending) == 0 {
@@ -818,6 +826,9 @@ func runWalk(t *testing.T, rep *Report, prof profile, seed uint64, walk int, act
 			w.checkSnapshots()
 		}
 		if f := os.Getenv("VERIF_DUMP_TRACE"); f != "" {
+			if strings.HasSuffix(f, "/") {
+				f += fmt.Sprintf("%s-%d-%d.txt", prof.name, seed, walk)
+			}
 			os.WriteFile(f, []byte(strings.Join(w.Trace, "\n")+"\n"), 0o644)
 		}
 		rep.Case(w.walkID, len(w.Ops) > 0)
@@ -1090,6 +1101,37 @@ func (w *World) trackMixing() {
 	}
 }
 
+// checkCompaction: C11 — what a log no longer holds is covered by a visible snapshot of that node (a
+// compaction never goes beyond the newest snapshot's label). Evaluated after every action.
+func (w *World) checkCompaction() {
+	if w.S.Opts.SnapEvery == 0 {
+		return
+	}
+	for _, id := range w.S.IDs() {
+		base, _, ok := raft.VerifLogBaseOf(w.S.Nodes[id].RawLog)
+		if !ok || base == 0 {
+			continue
+		}
+		dir := filepath.Join(w.S.Nodes[id].Dir, "snapshots")
+		ents, _ := os.ReadDir(dir)
+		var newest uint64
+		for _, e := range ents {
+			if !e.IsDir() || !strings.HasPrefix(e.Name(), "snapshot-") {
+				continue
+			}
+			var meta raft.SnapshotMetadata
+			if md, err := os.ReadFile(filepath.Join(dir, e.Name(), "metadata.json")); err == nil && json.Unmarshal(md, &meta) == nil && meta.LastIncludedIndex > newest {
+				newest = meta.LastIncludedIndex
+			}
+		}
+		if base > newest {
+			w.violate("C11", "the log was trimmed beyond the newest visible snapshot: the entries in between exist nowhere on this node",
+				fmt.Sprintf("node %d: log starts after index %d, newest visible snapshot is labelled %d", id, base, newest),
+				map[string]string{"oracle": "compaction-covered-by-snapshot"})
+		}
+	}
+}
+
 // checkSnapshots: C10 — every snapshot on any disk holds exactly the operations up to its label.
 func (w *World) checkSnapshots() {
 	if w.S.Opts.SnapEvery == 0 {
@@ -1122,6 +1164,25 @@ func (w *World) checkSnapshots() {
 				w.violate("C10", "a visible snapshot does not hold a complete state machine image", fmt.Sprintf("node %d %s: %v (%d bytes)", id, e.Name(), err, len(data)),
 					map[string]string{"oracle": "snapshot-exact", "pattern": pat})
 				continue
+			}
+			// the configuration a snapshot carries is the one committed at its label: never one whose
+			// entry lies beyond the label (it may never commit), never one a log contradicts
+			if rc, err := codec.DecodeConfiguration(meta.Configuration); err == nil {
+				sc := CfgFromRaft(&rc)
+				if sc.Index > meta.LastIncludedIndex {
+					w.violate("C10", "a snapshot carries a configuration from beyond its label",
+						fmt.Sprintf("node %d %s: label %d, configuration %s (index %d)", id, e.Name(), meta.LastIncludedIndex, sc.String(), sc.Index),
+						map[string]string{"oracle": "snapshot-configuration", "pattern": "beyond-label"})
+				} else {
+					for _, oid := range w.S.IDs() {
+						lg := w.S.Nodes[oid].LogOf()
+						if x := lg.Get(sc.Index); x != nil && x.Kind == 2 && x.Cfg != nil && x.Cfg.String() != sc.String() && sc.Index <= w.S.Nodes[oid].R.Status().CommitIndex {
+							w.violate("C10", "a snapshot carries a configuration that differs from the committed entry at its index",
+								fmt.Sprintf("node %d %s: label %d, configuration %s; node %d holds %s committed at that index", id, e.Name(), meta.LastIncludedIndex, sc.String(), oid, x.Cfg.String()),
+								map[string]string{"oracle": "snapshot-configuration", "pattern": "differs-from-log"})
+						}
+					}
+				}
 			}
 			var want []uint64
 			for _, i := range idx {
